@@ -26,6 +26,7 @@ const W_REUSE_LOCAL: u64 = 8;
 const W_TABLES_EMPTY: u64 = 16;
 const W_REOPEN_WHILE_HELD: u64 = 32;
 const W_LOCAL_REOPEN_WHILE_HELD: u64 = 64;
+const W_OLD_STREAM_READ_AFTER_REOPEN: u64 = 128;
 
 fn victim_histories() -> (Vec<Vec<Op>>, Vec<Vec<Op>>) {
     let a = vec![
@@ -174,9 +175,13 @@ enum Cyc {
     /// opens another stream, whose request draws 7 again (free in the table); before the peer answers, the application
     /// drops the old stream: the pending request must not be touched (one Connect, one stream)
     LocalResetReopenWhileHeld,
+    /// like PeerResetReopenWhileHeld, but the application reads what is still buffered in the OLD stream only after the
+    /// peer has opened the id again: the dead stream must not put frames (acknowledgements) on the wire under an id
+    /// that belongs to another stream now
+    PeerResetReopenHeldReadsLater,
 }
 
-const CYCS: [Cyc; 10] = [
+const CYCS: [Cyc; 11] = [
     Cyc::PeerOpenClean,
     Cyc::PeerOpenLocalAbort,
     Cyc::PeerOpenPeerReset,
@@ -187,6 +192,7 @@ const CYCS: [Cyc; 10] = [
     Cyc::LocalOpenAbort,
     Cyc::PeerResetReopenWhileHeld,
     Cyc::LocalResetReopenWhileHeld,
+    Cyc::PeerResetReopenHeldReadsLater,
 ];
 
 struct B {
@@ -254,6 +260,10 @@ fn exec_b(seq: &[Cyc], render: bool) -> RunOutput {
             Cyc::PeerOpenPeerReset => EndPlan::SeqKeep(vec![Op::W(1), Op::ReadToEof(4), Op::W(1)]),
             Cyc::PeerOpenLocalFinishFirst => EndPlan::SeqKeep(vec![Op::W(1), Op::Shutdown, Op::ReadToEof(4)]),
             Cyc::PeerOpenOverrun => EndPlan::SeqKeep(vec![Op::W(1), Op::Park]),
+            Cyc::PeerResetReopenHeldReadsLater => {
+                plans.insert(tag + 5, EndPlan::SeqKeep(vec![Op::Park]));
+                EndPlan::SeqKeep(vec![Op::Gate(pos as u8), Op::ReadToEof(4), Op::Park])
+            }
             Cyc::PeerResetReopenWhileHeld => {
                 // second incarnation (tag + 7 = 0x?f, used by no other variant): an ordinary exchange
                 plans.insert(tag + 7, EndPlan::SeqKeep(vec![Op::W(1), Op::ReadToEof(4), Op::Shutdown]));
@@ -272,6 +282,47 @@ fn exec_b(seq: &[Cyc], render: bool) -> RunOutput {
             b.v("leak.before-cycle", format!("cycle {pos} ({c:?}) starts at quiescence with a non-empty flow table {before:?}"));
         }
         match c {
+            Cyc::PeerResetReopenHeldReadsLater => {
+                b.raw.send(&RFrame::Connect { id: F, rwnd: 2, port: 1, host: vec![tag] });
+                for i in 0..2u8 {
+                    let d = payload(tag, 1, i as usize, 1);
+                    b.raw.send(&RFrame::Push { id: F, data: d.clone() });
+                    b.w.obs.borrow_mut().dir(tag, 0).written.extend(&d);
+                }
+                b.raw.send(&RFrame::Reset { id: F });
+                b.settle();
+                // the peer opens the id again; the local application still holds the old stream, with two unread frames
+                let tag2 = tag + 5; // 0x?f for variant 10
+                b.raw.send(&RFrame::Connect { id: F, rwnd: 2, port: 1, host: vec![tag2] });
+                let got = b.settle();
+                let accepted = got.iter().any(|m| matches!(m, RMsg::Frame(RFrame::Acknowledge { id: F, n }) if *n == E_RWND));
+                // now the application reads what the OLD stream still has
+                b.w.obs.borrow_mut().open_gate(pos as u8);
+                let got = b.settle();
+                if accepted {
+                    b.wit |= W_OLD_STREAM_READ_AFTER_REOPEN;
+                    let stale: Vec<&RMsg> = got.iter().filter(|m| matches!(m, RMsg::Frame(f) if f.id() == F)).collect();
+                    if !stale.is_empty() {
+                        b.v("reuse.old-stream-speaks-on-new-flow", format!("cycle {pos} ({c:?}): reading the OLD stream of flow {F} (reset by the peer, its slot gone) put {stale:?} on the wire although the id belongs to a new stream on which the peer has sent nothing"));
+                    }
+                    let obs = b.w.obs.borrow();
+                    let d = obs.dirs.get(&(tag, 0)).cloned().unwrap_or_default();
+                    drop(obs);
+                    if d.read != d.written || !d.eof {
+                        b.v("abort.delivered-data-lost", format!("cycle {pos} ({c:?}): the old stream must still hand out what was delivered before the Reset: read {:02x?} eof={} written {:02x?}", d.read, d.eof, d.written));
+                    }
+                }
+                // let go of both
+                for t in [tag, tag2] {
+                    if let Some(i) = b.w.sim.tasks.iter().position(|x| x.name == format!("s{t}.a") && !x.done) {
+                        b.w.sim.cancel_task(i);
+                        b.w.obs.borrow_mut().end(&format!("s{t}.a"));
+                    }
+                }
+                b.settle();
+                b.raw.send(&RFrame::Reset { id: F });
+                b.settle();
+            }
             Cyc::PeerResetReopenWhileHeld => {
                 b.raw.send(&RFrame::Connect { id: F, rwnd: 2, port: 1, host: vec![tag] });
                 let d1 = payload(tag, 1, 0, 2);
@@ -598,11 +649,11 @@ pub fn run(args: &Args) -> Report {
         fault: 0,
         total_wall: Duration::from_secs(if thorough { 1500 } else { 50 }),
         max_execs_per_case: 400_000,
-        required_witnesses: W_ABORT_SEEN | W_BYST_DONE | W_REUSE_ACKED | W_REUSE_LOCAL | W_TABLES_EMPTY | W_REOPEN_WHILE_HELD | W_LOCAL_REOPEN_WHILE_HELD,
+        required_witnesses: W_ABORT_SEEN | W_BYST_DONE | W_REUSE_ACKED | W_REUSE_LOCAL | W_TABLES_EMPTY | W_REOPEN_WHILE_HELD | W_LOCAL_REOPEN_WHILE_HELD | W_OLD_STREAM_READ_AFTER_REOPEN,
         adaptive: thorough,
-        witness_names: &[("abort_observed_as_eof", W_ABORT_SEEN), ("all_futures_completed", W_BYST_DONE), ("peer_reopen_of_same_id_acknowledged", W_REUSE_ACKED), ("local_reopen_drew_same_id", W_REUSE_LOCAL), ("flow_tables_empty_at_end", W_TABLES_EMPTY), ("peer_reopened_id_while_old_stream_still_held", W_REOPEN_WHILE_HELD), ("local_request_pending_on_the_id_when_the_old_stream_is_dropped", W_LOCAL_REOPEN_WHILE_HELD)],
+        witness_names: &[("abort_observed_as_eof", W_ABORT_SEEN), ("all_futures_completed", W_BYST_DONE), ("peer_reopen_of_same_id_acknowledged", W_REUSE_ACKED), ("local_reopen_drew_same_id", W_REUSE_LOCAL), ("flow_tables_empty_at_end", W_TABLES_EMPTY), ("peer_reopened_id_while_old_stream_still_held", W_REOPEN_WHILE_HELD), ("local_request_pending_on_the_id_when_the_old_stream_is_dropped", W_LOCAL_REOPEN_WHILE_HELD), ("old_stream_read_after_the_id_was_reopened", W_OLD_STREAM_READ_AFTER_REOPEN)],
     };
-    rep.rule = "driver A: two real endpoints, a victim stream under every pair of close histories (shutdown?/drop/read orders with data in flight), a bystander stream with traffic both ways and a follow-up stream, all schedules <= k deviations: C05's reference model on the victim, bystander/follow-up must complete with equality, flow tables (hook) empty once nobody holds a stream. driver B: real endpoint + raw peer, every sequence of <= L open/close cycles over 10 variants (clean, local abort, peer reset, finish-first, overrun, locally opened clean/rejected/aborted, peer reset + re-open of the id while the local application still holds the old stream, which it then drops: the new stream must not be touched; the same with a NEW LOCAL REQUEST pending on the id when the old stream is dropped) re-using the SAME flow id at link quiescence: the re-opened id must be acknowledged (slot free, black box), start with fresh credit, empty buffer and no closed flag; the endpoint's scripted generator must draw the same id again".into();
+    rep.rule = "driver A: two real endpoints, a victim stream under every pair of close histories (shutdown?/drop/read orders with data in flight), a bystander stream with traffic both ways and a follow-up stream, all schedules <= k deviations: C05's reference model on the victim, bystander/follow-up must complete with equality, flow tables (hook) empty once nobody holds a stream. driver B: real endpoint + raw peer, every sequence of <= L open/close cycles over 11 variants (clean, local abort, peer reset, finish-first, overrun, locally opened clean/rejected/aborted, peer reset + re-open of the id while the local application still holds the old stream, which it then drops: the new stream must not be touched; the same with a NEW LOCAL REQUEST pending on the id when the old stream is dropped; and the old stream's buffered data read only after the id was re-opened: the dead stream must not speak on the new flow) re-using the SAME flow id at link quiescence: the re-opened id must be acknowledged (slot free, black box), start with fresh credit, empty buffer and no closed flag; the endpoint's scripted generator must draw the same id again".into();
     rep.assumptions = vec![
         "re-use is probed at link quiescence; a Reset/Push of the old incarnation still in flight when the id is re-used is outside the statement (no incarnation numbers in the protocol)".into(),
         "one poll = one atomic step".into(),
